@@ -34,12 +34,11 @@ def families(thorough):
     if thorough:
         fams = [
             {"nx": 2, "ny": 2, "zcols": [], "strata": [[]], "K": 5, "maxn": 20},
-            {"nx": 2, "ny": 3, "zcols": [], "strata": [[]], "K": 3, "maxn": 12},
-            {"nx": 3, "ny": 3, "zcols": [], "strata": [[]], "K": 2, "maxn": 9},
+            {"nx": 2, "ny": 3, "zcols": [], "strata": [[]], "K": 2, "maxn": 12},
+            {"nx": 3, "ny": 3, "zcols": [], "strata": [[]], "K": 1, "maxn": 9},
             {"nx": 2, "ny": 2, "zcols": ["z1"], "strata": [[0], [1]], "K": 2, "maxn": 12},
             {"nx": 3, "ny": 2, "zcols": ["z1"], "strata": [[0], [1]], "K": 1, "maxn": 8},
-            {"nx": 2, "ny": 2, "zcols": ["z1", "z2"], "strata": [[0, 0], [1, 1], [0, 1]], "K": 1, "maxn": 12},
-            {"nx": 2, "ny": 2, "zcols": ["z1"], "strata": [[0], [1], [2]], "K": 2, "maxn": 7},
+            {"nx": 2, "ny": 2, "zcols": ["z1", "z2"], "strata": [[0, 0], [1, 1], [0, 1]], "K": 1, "maxn": 6},
         ]
     for i, f in enumerate(fams):
         f["id"] = i + 1
@@ -624,7 +623,7 @@ def replay_discrete_w(payload):
             else:
                 bad_L.add(L)
         # ---- verdict rule: boolean = (p_value >= significance_level)
-        vsel = ok_calls if payload.get("full") else rng.sample(ok_calls, min(2, len(ok_calls)))
+        vsel = rng.sample(ok_calls, min(3 if payload.get("full") else 2, len(ok_calls)))
         # calls whose base run failed are still probed for the verdict on ONE alpha (the user-visible consequence)
         failed_calls = [c for c in todo if c not in ok_calls and c not in raised and c[0] == "power_divergence" and c[1] not in ("", "num")]
         for (fname, lam_arg, L) in vsel + failed_calls[:2]:
@@ -675,7 +674,7 @@ def replay_discrete_w(payload):
         variants = ["swap_xy", "row_perm", "labels_str", "labels_shift", "labels_cat", "labels_cat_unobserved", "names_int"]
         if len(Z) >= 2:
             variants.append("z_order")
-        rsel = ok_calls if payload.get("full") and len(rows) <= 12 else rng.sample(ok_calls, min(2, len(ok_calls)))
+        rsel = rng.sample(ok_calls, min(2, len(ok_calls)))
         for (fname, lam_arg, L) in rsel:
             for vi, var in enumerate(variants):
                 if only is not None and only[3] != var:
